@@ -197,6 +197,13 @@ class TransformerRun(object):
             return alg.RatFun.sym('period') * alg.RatFun.sym('U[P]')
         if isinstance(e, ast.Name) and e.id in self.nums:
             return self.nums[e.id]
+        if isinstance(e, ast.Attribute) and e.attr == 'numerator' and isinstance(e.value, ast.Name) and e.value.id in self.nums:
+            # the numerator of a Fraction that passed the divisibility guard is the whole number int() would give
+            nm = e.value.id
+            self.int_lines[nm] = e.lineno
+            if nm not in self.guards:
+                self.problems.append((e.lineno, 'int(%s) is applied without a dominating divisibility guard: the bound is rounded instead of rejected' % nm))
+            return self.nums[nm]
         return None
 
     def num_of(self, e):
@@ -302,12 +309,40 @@ class TransformerRun(object):
                         if s not in self.guards:
                             self.problems.append((st.lineno, 'int(%s) is applied without a dominating divisibility guard: the bound is rounded instead of rejected' % s))
                 return
+            if isinstance(t, ast.Tuple) and isinstance(st.value, ast.Tuple) and len(t.elts) == len(st.value.elts) and all(isinstance(x, ast.Name) for x in t.elts):
+                try:
+                    vals = [self.num_of(v_) for v_ in st.value.elts]
+                except ValueError as ex:
+                    raise AnalysisError('%s: cannot interpret `%s` (%s)' % (self.f.where, ast.unparse(st)[:60], ex))
+                for x, (r_, ints_) in zip(t.elts, vals):
+                    self.nums[x.id] = r_
+                    if ints_:
+                        self.int_lines[x.id] = st.lineno
+                return
             if isinstance(t, ast.Tuple) and isinstance(st.value, ast.Call):
                 sub = self.call(st.value)
                 if sub is not None and sub.ret is not None and len(t.elts) == 2 and all(isinstance(x, ast.Name) for x in t.elts):
                     self.nums[t.elts[0].id], self.nums[t.elts[1].id] = sub.ret
                     return
                 raise AnalysisError('%s: tuple assignment from a call is not interpreted' % self.f.where)
+        if isinstance(st, ast.For) and isinstance(st.iter, (ast.Tuple, ast.List)) and isinstance(st.target, ast.Name) and st.iter.elts \
+                and all(isinstance(x, ast.Name) and x.id in self.nums for x in st.iter.elts) and not st.orelse:
+            # for bound in (b, e): <guard on bound>   ==   the guard once per name
+            import copy as _copy
+            for x in st.iter.elts:
+                class _R(ast.NodeTransformer):
+                    def visit_Name(self, n_, x=x, v=st.target.id):
+                        return ast.copy_location(ast.Name(id=x.id, ctx=n_.ctx), n_) if n_.id == v else n_
+                self.block([_R().visit(_copy.deepcopy(b_)) for b_ in st.body])
+            return
+        if isinstance(st, ast.If) and isinstance(st.test, ast.BoolOp) and isinstance(st.test.op, ast.Or) and st.body and isinstance(st.body[-1], ast.Raise) \
+                and all(isinstance(self.test(v_), tuple) and self.test(v_)[0] == 'div' for v_ in st.test.values):
+            # if <b not whole> or <e not whole>: raise   -- one guard for each name
+            exc = st.body[-1].exc
+            for v_ in st.test.values:
+                self.guards[self.test(v_)[1]] = (st.lineno, ast.unparse(exc.func) if isinstance(exc, ast.Call) else ast.unparse(exc))
+            self.block(st.orelse)
+            return
         if isinstance(st, ast.If):
             v = self.test(st.test)
             if isinstance(v, tuple) and v[0] == 'div':
